@@ -260,6 +260,25 @@ PROPS = {
 # properties not (yet) claimed -> reason
 NOT_APPLICABLE = {}
 
+# what later strengthening rounds added to a check (appended to its manifest text; details in DESIGN §14.2)
+ADDED = {
+    "C06": "Also: copies of one signed message whose signature is re-encoded (malleable twin, compressed-key flag) are never evidence.",
+    "C07": "Also through the consensus entry (NewBlockDataFromReader + ImportBlock) as a drawn alternative to Import.",
+    "C08": "Also blocks with patch transactions built by the node's block handler.",
+    "C12": "Also bare integer literals in data (around 2^53 up to the int64 limits): id, signature validity and fields unchanged across representations, decided against goloop's own id.",
+    "C13": "Also signatures forged from the public key alone (digest 0 / derived digest) and stored-form transactions that have no id, which no signature may authorize.",
+    "C14": "Also mutations through AccountState handles kept across GetSnapshot/Reset, compared with the model after every step.",
+    "C20": "Also blobs byte-identical to a trie node of the same state (one hash wanted for two buckets).",
+    "C21": "Also long-lived array handles and whole-store save/roll-back.",
+    "C24": "Also the Hex* number types through the RLP and MsgPack codecs (payload = minimal two's complement).",
+    "C25": "Also kilobyte-sized nearly constant inputs (highest compression ratios).",
+    "C26": "Also an aggregate bloom stored and restored from its compressed form between merges.",
+    "C27": "Also witnesses held across later WitnessFor calls and re-verified.",
+    "C28": "Also headers handed out for a prefix held and re-read after the accumulator has grown.",
+    "C31": "Also reads into a window (len < cap) of a larger sentinel-filled buffer.",
+    "C36": "Also the JSON-RPC address gate (validator tags and jsonrpc.Address) on every candidate.",
+}
+
 HOOKS = {
     # /repo path (only compiled with -tags verif) -> canonical copy in /verif/hooks
     "network/verif_hooks.go": "network_verif_hooks.go",
@@ -713,7 +732,7 @@ def manifest():
             evidence_file="evidence/%s.json" % pid,
             replay_cmd_template="python3 check.py %s --replay {path}" % pid,
             engine="rapid-harness",
-            level_claimed=dict(category="exploration", text=c["text"], design_ref=c["ref"]),
+            level_claimed=dict(category="exploration", text=c["text"] + ((" " + ADDED[pid]) if pid in ADDED else ""), design_ref=c["ref"]),
             level_note=c["note"],
             technique="property-based testing (pgregory.net/rapid): " + c["technique"]))
     na = [dict(property_id=pid, reason=NOT_APPLICABLE.get(pid, "check not built yet (work in progress); see DESIGN.md for the plan"))
